@@ -687,8 +687,16 @@ func (w *world) checkEvent(name string, event M, when string) eventCmp {
 			for k, v := range b {
 				c[k] = v
 			}
+			// the engine adds ?event/?location/?ruleId unless the
+			// rule's own `when` binds a variable of that name
+			own := map[string]bool{}
+			if wh := w.whenOf(order, id); wh != nil {
+				refmatch.Vars(wh, own)
+			}
 			for _, s := range specials {
-				delete(c, s)
+				if !own[s] {
+					delete(c, s)
+				}
 			}
 			got[id][refmatch.Key(c)] = true
 		}
